@@ -23,8 +23,11 @@ ACMED_REL = os.path.join(TARGET, "release", "acmed")
 HELPER = os.path.join(BUILD, "helper-target", "debug", "vhelper")
 FEATURE = "breard_r_acmed_verif"
 ALLOWED_AXIOMS = {"propext", "Classical.choice", "Quot.sound"}
+# `admit` only in tactic position (a constructor named `admit` is legitimate); any use of sorry/admit
+# is caught independently by the axiom audit (sorryAx).
 FORBIDDEN = re.compile(
-    r"\b(sorry|admit|native_decide|bv_decide|implemented_by|unsafe)\b|^\s*axiom\s|maxHeartbeats\s+0")
+    r"\b(sorry|native_decide|bv_decide|implemented_by|unsafe)\b|^\s*axiom\s|maxHeartbeats\s+0"
+    r"|(^|\bby|;|·|<;>)\s*admit\b")
 
 os.makedirs(BUILD, exist_ok=True)
 
